@@ -14,8 +14,8 @@ CLAIMS = {
         text="Decides the structural core: inspection methods take &self on structs without interior mutability; for the four guard types the number of words appended on creation equals the number popped on drop for every aligned predicate valuation (loop-summarised effect counting), creation/drop/seal touch only the word buffer, seal() writes exactly num_seal_words() words, and each temporary view is produced by the same source as the final export. Holds for all histories by induction (each inspection is a no-op on coder state). Not decided: bit arithmetic inside write_bit/read_bit; backend failure in the middle of a guard constructor (outside the quantifier).",
         tech="path-sensitive effect counting with loop summarisation and predicate alignment; receiver-kind / interior-mutability scan; compile-fail witnesses (thorough)"),
     'C18': dict(
-        text="Decides the structural half of the size/emptiness queries: ANS num_words() equals remaining(bulk) plus the symbolic number of words into_compressed appends; range-encoder num_words() equals remaining(bulk) + num_seal_words() and seal() writes exactly num_seal_words() words on every aligned path pair; num_bits = BITS*num_words; the 'fresh/empty' sentinel compared by is_empty/seal/num_seal_words/maybe_exhausted is the constant the constructors store and clear() restores; diagnostic overrides are structural clones of the trait defaults and no possibly-zero power of two reaches a divisor. Not decided: num_valid_bits, maybe_exhausted after the last symbol, bit-coder len(), numeric values of entropy/KL.",
-        tech="affine agreement of query return values with loop-summarised export effect counts; sentinel atom agreement; structural (DAG) equality of overrides; two-point constant rule for wrapping_pow2"),
+        text="Decides the structural half of the size/emptiness queries: ANS num_words() equals remaining(bulk) plus the symbolic number of words into_compressed appends; range-encoder num_words() equals remaining(bulk) + num_seal_words() and seal() writes exactly num_seal_words() words on every aligned path pair; num_bits = BITS*num_words; the 'fresh/empty' sentinel compared by is_empty/seal/num_seal_words/maybe_exhausted is the constant the constructors store and clear() restores; the bit-level coders test 'partial word present' through one and the same field everywhere; the tolerance of RangeDecoder::maybe_exhausted is at least the distance sealing can leave between point and lower (power-of-two polynomials over the symbolic widths, reader zero-fill checked); num_valid_bits() after from_binary equals the data size (bit-length accounting of the import loop, formula evaluated as a polynomial over that model); diagnostic overrides are structural clones of the trait defaults and no possibly-zero power of two reaches a divisor. Not decided: 'one with whole words left reports that it is not', bit-coder len(), numeric values of entropy/KL.",
+        tech="affine agreement of query return values with loop-summarised export effect counts; sentinel atom agreement; structural (DAG) equality of overrides; two-point constant rule for wrapping_pow2; power-of-two polynomial comparison of thresholds; bit-length abstract domain for the import loop"),
     'C07': dict(
         text="Decides the structural half of random access by a potential-function argument: on every success path of RangeEncoder::encode_symbol (words written, loop-summarised) + (change of held-back count) equals the number of one-word window shifts; Pos::pos returns backend position + held-back words; the decoder reads one word per shift under the same renormalisation predicate; RangeDecoder::seek = backend seek, re-read of the window with the constructors' routine, state restore, with both errors propagated; seek(pos()) is symbolically the identity for AnsCoder and ChainCoder; backend seek accepts exactly p<=len; snapshots take &self. Not decided: that decoding after a seek yields the right symbols; maybe_exhausted at the final position.",
         tech="loop-summarised effect counting against a potential function; symbolic seek(pos()) round trip; dominance/ordering of the seek protocol; difference bounds for backend seek"),
@@ -26,10 +26,10 @@ CLAIMS = {
         text="Decides that every batch / fallible / iid / reverse form of the stream-code traits is, by construction, the per-symbol loop the property quantifies over (no impl overrides a provided batch method; each provided body makes exactly one encode_symbol/decode_symbol call per yielded item with the item's components, propagates its error and touches the coder in no other way; DecodeIidSymbols yields exactly amt items), that every conversion of an AnsCoder copies `state` unchanged, that only the coding steps, clear() and seek() assign `state`, and that Clone is derived. The core statement - encode_symbol and decode_symbol are algebraic inverses, export/import is the identity - is value-level and NOT decided: a changed threshold or state update is not detected by this check.",
         tech="override inventory over impl tables; loop-summarised structural rules on provided trait bodies and closures; literal-site / field-writer inventory (who-may-write)"),
     'C14': dict(cat='proof',
-        text="Model-independence of chain decoding, proved as non-interference on the current tree: on every path of ChainCoder::decode_symbol (loop-free; all paths enumerated) no term derived from the model argument, the model's results, the remainders head or the remainders backend reaches the quantile handed to the model, a value stored in the compressed head, a use of the compressed backend, the decision to report OutOfCompressedData, or any branch evaluated before such an event; helpers called with &mut self write only remainders-side places. Hence, by induction over calls, the quantile sequence, words consumed and exhaustion point are functions of the compressed data alone and symbol i = model_i(quantile_i) (termination-insensitive w.r.t. remainders-sink errors). The check downgrades itself to `other` if any obligation is unresolved. Not decided: that flipping bits inside chunk j changes only quantile j (bit-level dependence through the shifted head), nor that chunk i is exactly the i-th PRECISION-bit group (arithmetic).",
+        text="Model-independence of chain decoding, proved as non-interference on the current tree: on every path of ChainCoder::decode_symbol (loop-free; all paths enumerated) no term derived from the model argument, the model's results, the remainders head or the remainders backend reaches the quantile handed to the model, a value stored in the compressed head, a use of the compressed backend, the decision to report OutOfCompressedData, or any branch evaluated before such an event; helpers called with &mut self write only remainders-side places. Hence, by induction over calls, the quantile sequence, words consumed and exhaustion point are functions of the compressed data alone and symbol i = model_i(quantile_i) (termination-insensitive w.r.t. remainders-sink errors). In addition (necessary condition of the chunk clause, outside the proof): every value stored in the compressed head depends on the previous head, so left-over bits are never discarded. The check downgrades itself to `other` if any obligation is unresolved. Not decided: that flipping bits inside chunk j changes only quantile j (bit-level dependence through the shifted head), nor that chunk i is exactly the i-th PRECISION-bit group (arithmetic).",
         tech="path-sensitive information-flow (non-interference) analysis over the value graph + callee frame summaries"),
     'C13': dict(
-        text="Decides three structural clauses for all inputs/configurations: (1) in every chain-coder function that reads a backend, each path that continues after a read carries the Some/Continue decision of that read, so running out of compressed data or remainders can only surface as Err, never as data; (2) the two unsafe precision changers are called only where the static assertions of their dedicated safe wrappers are entailed by the caller's own assertions plus its branch (const-generic difference bounds); (3) ChainCoderHeads is private and built only by its constructor and the precision changers. Not decided: that decode followed by re-encode restores the words exactly (refill/flush thresholds and head arithmetic are value-level: a flipped comparison there is not detected).",
+        text="Decides three structural clauses for all inputs/configurations: (1) in every chain-coder function that reads a backend, each path that continues after a read carries the Some/Continue decision of that read, so running out of compressed data or remainders can only surface as Err, never as data; (2) the two unsafe precision changers are called only where the static assertions of their dedicated safe wrappers are entailed by the caller's own assertions plus its branch (const-generic difference bounds); (3) ChainCoderHeads is private and built only by its constructor and the precision changers; (4) all guards that trigger a flush/refill of the remainders head agree in relation and shift; (5) each exporter drains the remainders head down to exactly the marker its importer pushed (1 for from_binary, none for from_compressed). Not decided: that decode followed by re-encode restores the words exactly (head arithmetic is value-level: a consistent change of all sibling thresholds is not detected).",
         tech="error-discipline (must-establish) rule over enumerated paths; const-generic entailment with difference bounds; literal-site inventory; compile-fail witnesses (thorough)"),
     'C19': dict(
         text="Decides necessary structural conditions for all inputs/configurations: every literal of a model type is produced after the Ok arm of a shared validator, by a view/conversion of an existing model, or behind inline rejecting guards (private producers discharged at their callers); the float-table ingesters agree on sign and length checks and the (symbols, probabilities) constructors reject a count mismatch in both directions (no silent zip); no accept/reject decision is an ordering comparison against wrapping_pow2(PRECISION) without a zero/precision test (it degenerates at PRECISION == BITS); the validator's accept decision depends on every accumulator. Known finding (printed, exit 0): the lazy categorical constructor accepts negative weights by design trade-off. Not decided: that an accepted table satisfies C03 numerically.",
@@ -38,17 +38,17 @@ CLAIMS = {
         text="Obligation audit of every call to an `unsafe` callee in the library (56 sites on the current tree; found from callee signatures in MIR so macro-expanded sites are included). Machine-discharged: index/range bounds from dominating guards with helper inlining and no-underflow side conditions (BOUND), tabled non-zero shift idioms under dominating guards (NONZERO-LOCAL), binary-search comparators that never return Equal (COMPARATOR), const-generic precondition entailment for the unsafe precision changers (PRECOND), core NonZero guarantee and forwards inside unsafe fns (TRUSTED-TYPE/FORWARD), entry index of the Huffman table walks. Data-dependent sites are TRUSTED-DATA: their invariants are enumerated in `assumptions`, and their structural half is checked: owning model types are built from strictly validated data only (a user-implementable IterableEntropyModel does not count), lookup tables have their length established, no unchecked access relies on an invariant that a safe `&mut` accessor can break, unsafe traits are implemented for std types only, no transmute/raw-pointer dereference. Unrecognised or new unsafe operations fail closed. Not decided: the TRUSTED-DATA invariants themselves (cdf monotonicity, Huffman node indices) and wrap-dependent arithmetic.",
         tech="unsafe-site obligation audit over MIR: difference-bound proofs, dominating-guard idiom table, comparator scan, const-generic entailment, who-may-construct / length-establishment / &mut-escape rules"),
     'C10': dict(
-        text="Decides, for every path and configuration, that the quantile handed to a model by the three decoders is below 2^PRECISION (reduced modulo 2^PRECISION, under a dominating strict guard whose failing arm returns InvalidData, or on the PRECISION == BITS edge), that the lookup models and the quantizer check that bound before their first use of the quantile, and that only the documented front-end errors are constructed (ANS none, range InvalidData, chain OutOfCompressedData). Not decided: absence of arithmetic panics, termination of the quantizer search, that the returned symbol belongs to the support (value-level; e.g. a wrong skip loop inside a model is not detected).",
-        tech="bounded-value abstract domain over the value graph with dominating-guard recognition; error-constructor inventory"),
+        text="Decides, for every path and configuration, that the quantile handed to a model by the three decoders is below 2^PRECISION (reduced modulo 2^PRECISION, under a dominating strict guard whose failing arm returns InvalidData, or on the PRECISION == BITS edge), that the lookup models and the quantizer check that bound before their first use of the quantile, that only the documented front-end errors are constructed (ANS none, range InvalidData, chain OutOfCompressedData), that the public range-coder state constructor rejects every range below the renormalisation threshold the coding steps maintain (thresholds canonicalised to x < 2^E), and that both quantizer searches wrap-check the candidate they adopt after a wrapping step. Not decided: absence of other arithmetic panics, termination of the quantizer search in general, that the returned symbol belongs to the support (value-level; e.g. a wrong skip loop inside a model is not detected).",
+        tech="bounded-value abstract domain over the value graph with dominating-guard recognition; error-constructor inventory; threshold canonicalisation; path rule on wrapping search steps"),
     'C02': dict(
-        text="Decides sibling-agreement conditions necessary for the range-coder round trip, for all inputs/configurations: clear() resets every field to what the parameter-free constructor stores; the 'no symbol yet' sentinel compared by seal / num_seal_words / is_empty / maybe_exhausted is the constant the constructors store; the two clones of the held-back-word flush (encode_symbol, seal) emit the same (first word, fill word) pairs with the same trip count; seal() writes exactly num_seal_words() words; the decoder's range/lower updates and renormalisation predicate are structurally identical to the encoder's after mapping model results to role atoms. Not decided: carry-resolution and sealing arithmetic, FIFO value identity, maybe_exhausted after the last symbol (a symmetric change of encoder and decoder, or a changed threshold on both sides, is not detected).",
+        text="Decides sibling-agreement conditions necessary for the range-coder round trip, for all inputs/configurations: clear() resets every field to what the parameter-free constructor stores; the 'no symbol yet' sentinel compared by seal / num_seal_words / is_empty / maybe_exhausted is the constant the constructors store; the two clones of the held-back-word flush (encode_symbol, seal) emit the same (first word, fill word) pairs with the same trip count; seal() writes exactly num_seal_words() words; the decoder's range/lower updates and renormalisation predicate are structurally identical to the encoder's after mapping model results to role atoms. maybe_exhausted tolerates the full distance sealing leaves between point and lower. Not decided: carry-resolution and sealing arithmetic, FIFO value identity (a symmetric change of encoder and decoder, or a changed threshold on both sides, is not detected).",
         tech="reset-completeness and sentinel agreement over constructor literals; structural (DAG) sibling comparison of duplicated code and of encoder vs decoder updates; loop-summarised effect counting"),
     'C04': dict(
-        text="Decides necessary structural conditions of the bits-back round trip for all inputs/configurations: every function that exports the ANS state applies the truncating chunker to the unmodified state (so words below the marker are never dropped); from_binary starts from the single marker bit and the raw-binary view / consuming export strip exactly one leading chunk that must equal Word::one(); from_binary can only fail with the backend's read error; the two import loops and the decoder's refill test compare the state with the same threshold and the same strictness. Not decided: encode(decode(bits)) == bits for all states (the algebra of the coding step), exactness of num_valid_bits.",
+        text="Decides necessary structural conditions of the bits-back round trip for all inputs/configurations: every function that exports the ANS state applies the truncating chunker to the unmodified state (so words below the marker are never dropped); from_binary starts from the single marker bit and the raw-binary view / consuming export strip exactly one leading chunk that must equal Word::one(); from_binary can only fail with the backend's read error; the two import loops and the decoder's refill test compare the state with the same threshold and the same strictness. num_valid_bits() after from_binary equals the size of the data (bit-length accounting). Not decided: encode(decode(bits)) == bits for all states (the algebra of the coding step).",
         tech="same-source rule over all exporters; marker push/strip pairing; error-origin classification; sibling agreement of the normalisation threshold (structural predicate equality)"),
     'C05': dict(
-        text="Decides necessary structural conditions, for all models/configurations, for the representations of one distribution to be the same model: every fixed-point cumulative of the leaky quantizer (encoder view, decoder search, symbol_table iterator) evaluates cdf and slack at the same boundary index (affine rule); views/projections copy the same-named fields; `impl Trait for &M` forwards unchanged; generic conversions store table triples without arithmetic; the contiguous->lookup conversion copies the cdf and fills the table from the monotonic part cdf[1..len-1] only; the lazy and eager categorical constructors compute a structurally identical `scale` under the same validation, with the as_(prefix_sum*scale)+index formula in both. Not decided: numeric equality of genuinely different float paths; uniform-model views.",
-        tech="affine boundary-consistency rule over the value graph (R10); same-field / delegation / no-arithmetic rules; structural (DAG) equality of sibling float computations"),
+        text="Decides necessary structural conditions, for all models/configurations, for the representations of one distribution to be the same model: every fixed-point cumulative of the leaky quantizer (encoder view, decoder search, symbol_table iterator) evaluates cdf and slack at the same boundary index (affine rule); views/projections copy the same-named fields; `impl Trait for &M` forwards unchanged; generic conversions store table triples without arithmetic; the contiguous->lookup conversion copies the cdf and fills the table from the monotonic part cdf[1..len-1] only; the lazy and eager categorical constructors compute a structurally identical `scale` under the same validation, with the as_(prefix_sum*scale)+index formula in both. every ordered search over a cdf excludes the wrapping total-mass entry; size_hint() of every crate-local iterator is consistent with its next() (what the generic conversions reserve and collect). Not decided: numeric equality of genuinely different float paths (e.g. the lazy model's float pre-skip bound); uniform-model views.",
+        tech="affine boundary-consistency rule over the value graph (R10); same-field / delegation / no-arithmetic rules; structural (DAG) equality of sibling float computations; size_hint/next step consistency (affine, modulo wrap)"),
     'C15': dict(
         text="Decides the mutual-consistency clause structurally: both Huffman tree builders build the heap from the same keyed source enumerate().map(|(i,s)| Reverse((s,i))) (deterministic tie-break by symbol index), pop two and push Reverse((w0+w1, next)) with the node counter starting at the number of symbols and stepping by one, and give bit 0 to the child popped first; out-of-alphabet symbols are rejected before any bit is emitted and the default prefix/suffix adaptors buffer first; the entry index of both unchecked table walks is in bounds. Not decided: prefix-freeness, Kraft equality, optimality, that decode inverts encode for every codeword (statements about code lengths / bit patterns).",
         tech="sibling agreement of the two builders' merge loops over role-normalised value-graph terms; ordering rule; difference-bound entry check"),
